@@ -495,6 +495,7 @@ theorem irr_cmd (fuel : Nat) (ih : Irr fuel) :
   | exit n => simp only [execCmd]; exact rel_finishSimple' _ e0 (by exact cond_of_stack rfl hc) _
   | setE on => simp only [execCmd]; exact rel_finishSimple' _ on (by exact cond_of_stack rfl hc) _
   | setM on => simp only [execCmd]; exact rel_finishSimple' _ e0 (by exact cond_of_stack rfl hc) _
+  | setP on => simp only [execCmd]; exact rel_finishSimple' _ e0 (by exact cond_of_stack rfl hc) _
   | unknown => simp only [execCmd]; exact rel_finishSimple' _ e0 (by exact cond_of_stack rfl hc) _
   | absent w r a => simp only [execCmd]; exact rel_finishSimple' _ e0 (by exact cond_of_stack rfl hc) _
   | tick c k =>
